@@ -54,6 +54,21 @@ KF2(e, subj) == IF G2(e, subj) /\ e.r = (e.op = "li_lower")
                 THEN pos' = (IF e.op = "li_lower" THEN BS(S, e.t).idx + 1 ELSE BS(S, e.t).idx + 2) /\ S' = S
                 ELSE FALSE
 
+(* the same finding seen through utils::count_with_prefix, which seeks the lower bound of the       *)
+(* prefix and counts forward: copies of the prefix string itself that lie before the hit are missed  *)
+RECURSIVE RunFrom(_, _, _)
+RunFrom(v, p, k) == IF k > Len(v) \/ ~StartsWith(v[k], p) THEN 0 ELSE 1 + RunFrom(v, p, k + 1)
+ImplPrefixCount(v, p) == RunFrom(v, p, BS(v, p).idx + 1)
+G2u(e, subj) == /\ subj.subject = "lexutils:sortedvec" /\ e.op = "li_utils"
+                /\ \E i \in 1..Len(e.counts) : /\ e.counts[i].ok /\ BS(e.S, e.counts[i].p).found
+                                                /\ ImplPrefixCount(e.S, e.counts[i].p) # PrefixCount(e.S, e.counts[i].p)
+KF2u(e, subj) ==
+    Pure_(/\ G2u(e, subj)
+          /\ LexSorted(e.S)
+          /\ ~e.collect.ok \/ e.collect.r = e.S
+          /\ ~e.lcp.ok \/ e.lcp.r = CommonPrefixOfAll(e.S)
+          /\ \A i \in 1..Len(e.counts) : ~e.counts[i].ok \/ e.counts[i].n = ImplPrefixCount(e.S, e.counts[i].p))
+
 (* C20-KF3: prev() at the end position (current() = None) does not step back to the last element:  *)
 (* it jumps to the FIRST element and answers false.                                                 *)
 G3(e, subj) == /\ subj.subject \in SortedVecSubjects /\ e.op = "li_prev" /\ e.ok
@@ -167,7 +182,7 @@ KF9(e, subj) == Pure_(G9(e, subj) /\ \A i \in 1..Len(e.cases) : S9(e.cases[i]))
 (* holds REPLACES the contract action for that event.                                            *)
 DevApplies(id, e, subj) ==
     \/ id = "C20-KF1" /\ G1(e, subj)
-    \/ id = "C20-KF2" /\ G2(e, subj)
+    \/ id = "C20-KF2" /\ (G2(e, subj) \/ G2u(e, subj))
     \/ id = "C20-KF3" /\ G3(e, subj)
     \/ id = "C20-KF4" /\ G4(e, subj)
     \/ id = "C20-KF5" /\ G5(e, subj)
@@ -177,7 +192,7 @@ DevApplies(id, e, subj) ==
     \/ id = "C20-KF9" /\ G9(e, subj)
 KnownDeviation(id, e, subj) ==
     \/ id = "C20-KF1" /\ KF1(e, subj)
-    \/ id = "C20-KF2" /\ KF2(e, subj)
+    \/ id = "C20-KF2" /\ (IF e.op = "li_utils" THEN KF2u(e, subj) ELSE KF2(e, subj))
     \/ id = "C20-KF3" /\ KF3(e, subj)
     \/ id = "C20-KF4" /\ KF4(e, subj)
     \/ id = "C20-KF5" /\ KF5(e, subj)
